@@ -1,6 +1,7 @@
 package sym
 
 import (
+	"sync/atomic"
 	"fmt"
 	"go/types"
 	"os"
@@ -101,6 +102,12 @@ type interpreter struct {
 	stubs     map[string]bool
 	bounds    map[string]bool
 	chanSeq   int
+	pcHash    [2]uint64
+	natives   map[*value]interface{}
+	timers    map[*value]*vtimer
+	timerList []*vtimer
+	timerSeq  int
+	clock     int64
 	pcSet     map[int]bool
 	keptUnknown int
 	watch     map[*value]string
@@ -130,6 +137,7 @@ type Config struct {
 	Verbose        bool
 	ConcLimit      int
 	SampleCap      int
+	MaxPreempt     int
 	FeasMs         int // wall-clock cap of a feasibility (pruning) query; unknown = keep
 }
 
@@ -155,6 +163,9 @@ type Explorer struct {
 	stop      bool
 	seenViol  map[string]bool
 	intrCache sync.Map
+	noFork    bool
+	qcache    sync.Map
+	cacheHits atomic.Int64
 	feasLimit time.Duration
 	KeptUnknown int
 	sizes     types.Sizes
@@ -247,6 +258,9 @@ func (e *Explorer) take() ([]Decision, bool) {
 }
 
 func (e *Explorer) push(p []Decision) {
+	if e.noFork {
+		return
+	}
 	e.mu.Lock()
 	e.work = append(e.work, p)
 	e.mu.Unlock()
@@ -453,6 +467,9 @@ func (i *interpreter) assumeInternal(t *smt.Term) {
 		i.pcSet = map[int]bool{}
 	}
 	i.pcSet[t.ID] = true
+	h := i.ctx.Hash(t)
+	i.pcHash[0] += h[0]
+	i.pcHash[1] += h[1]
 	i.solver.Assert(t)
 }
 
@@ -522,6 +539,30 @@ func (i *interpreter) branch(cond *smt.Term, fr *frame) bool {
 // past the feasibility limit kills the solver process, which is then restarted
 // and re-fed the path condition.
 func (i *interpreter) feasible(t *smt.Term) smt.Result {
+	key := i.cacheKey(t)
+	if r, ok := i.ex.qcache.Load(key); ok {
+		i.ex.cacheHits.Add(1)
+		return r.(smt.Result)
+	}
+	r := i.feasibleUncached(t)
+	if r != smt.Unknown {
+		i.ex.qcache.Store(key, r)
+	}
+	return r
+}
+
+// cacheKey identifies the query "path condition ∧ extra..." structurally.
+func (i *interpreter) cacheKey(extra ...*smt.Term) [4]uint64 {
+	k := [4]uint64{i.pcHash[0], i.pcHash[1], 0, 0}
+	for n, e := range extra {
+		h := i.ctx.Hash(e)
+		k[2] += h[0] * uint64(2*n+3)
+		k[3] += h[1] * uint64(2*n+5)
+	}
+	return k
+}
+
+func (i *interpreter) feasibleUncached(t *smt.Term) smt.Result {
 	r, killed := i.solver.CheckTimeout(i.ex.feasLimit, t)
 	if killed {
 		i.solver.Reset()
@@ -728,7 +769,18 @@ func (i *interpreter) userAssert(cond value, id string) {
 	K := i.knownDisj()
 	vars := i.inputVars()
 	// ordinary violation: path ∧ ¬c ∧ ¬K
-	r, m := i.modelFor(vars, neg, i.ctx.Not(K))
+	akey := i.cacheKey(neg, i.ctx.Not(K))
+	var r smt.Result
+	var m map[string]uint64
+	if c, ok := i.ex.qcache.Load(akey); ok && c.(smt.Result) == smt.Unsat {
+		i.ex.cacheHits.Add(1)
+		r = smt.Unsat
+	} else {
+		r, m = i.modelFor(vars, neg, i.ctx.Not(K))
+		if r == smt.Unsat {
+			i.ex.qcache.Store(akey, r)
+		}
+	}
 	if r == smt.Unknown {
 		panic(i.solverFail("assert " + id))
 	}
@@ -927,4 +979,29 @@ func (i *interpreter) noteStore(p *value) {
 func (i *interpreter) nextChanID() int {
 	i.chanSeq++
 	return i.chanSeq
+}
+
+// CacheHits is the number of solver queries answered from the cross-path cache
+// (same path condition and query structure decided earlier in this run).
+func (e *Explorer) CacheHits() int64 { return e.cacheHits.Load() }
+
+// Reexec deterministically re-executes one path from its decision vector (same SSA,
+// same solver, no forking) and returns the violations it reports. It is the
+// authoritative replay for schedule-dependent counterexamples, whose interleaving
+// cannot be dictated to the compiled program.
+func (e *Explorer) Reexec(dec []Decision) ([]Violation, string) {
+	ctx := smt.NewCtx()
+	solver, err := smt.NewSolver(e.cfg.SolverName, ctx, e.cfg.SolverTimeout)
+	if err != nil {
+		return nil, "solver: " + err.Error()
+	}
+	defer solver.Close()
+	e.noFork = true
+	defer func() { e.noFork = false }()
+	i := &interpreter{prog: e.prog, ex: e, fnInfos: map[*ssa.Function]*fnInfo{}, stepLimit: e.cfg.StepLimit}
+	i.ctx = smt.NewCtx()
+	solver.SetCtx(i.ctx)
+	i.solver = solver
+	res := i.runPath(dec)
+	return res.Violations, res.Outcome + ": " + res.Msg
 }
